@@ -21,6 +21,7 @@ DRIVERS = {"force-margin": ("harness.forcedrv", "force_trace", "ForceTrace", FAM
 
 def run(tier, seed):
     rep = Report("C17", tier, seed)
+    rep.add_proof("SubgridSlicesInBounds")
     rep.add_mc("MC_Interp", tlc.model_check("MC_Interp", "MC_Interp.cfg" if tier == "thorough" else "MC_Interp_quick.cfg", must_take=["Probe"]),
                note="InBounds, OwnCellLoaded, ValidInsideClipped")
     rep.add_mc("MC_Vertical", tlc.model_check("MC_Vertical", "MC_Vertical.cfg" if tier == "thorough" else "MC_Vertical_quick.cfg",
